@@ -5,3 +5,4 @@ import GBModel.Spherical
 import GBModel.Assemble
 import GBModel.Eval
 import GBModel.OneElec
+import GBModel.TwoElec
